@@ -229,7 +229,7 @@ def run(tier, seed, only=None):
         from checks import _dfs
         rule = rep.coverage["rule"]
         _dfs.run_plans(PROPERTY, "harness.group:GroupWorld",
-                       [("leader-in-situ", insitu_configs(tier), (2, 1, 2) if tier == "quick" else (2, 1, 3))],
+                       [("leader-in-situ", insitu_configs(tier), (2, 1, 2))],  # thorough: same bound, all four configurations, timers may overtake I/O
                        seed, rule, rep.assumptions, rep=rep, max_steps=500)
         rep.level = "exploration"
         rep.coverage["in_situ_rule"] = (
